@@ -28,7 +28,9 @@ TRUSTED = [
     "the wrapped function is a script of outcomes (success with a fresh stamped token | listed exception | unlisted exception) and of "
     "DURATIONS: a foreground execution sleeps the scripted number of ticks on the virtual loop before it returns / raises (the model's "
     "`.call o d`), background refreshes complete at explicit `done` operations; a call is atomic (nothing else touches its key while its "
-    "function body runs: concurrent callers are C07); the age of what a call hands out is judged at the instant the call returns",
+    "function body runs: concurrent callers are C07); the age of what a call hands out is judged at the instant the call returns; every call "
+    "is made in a task of its own: a call that executes nothing and cannot return while a recalculation of its key is in flight (early after "
+    "D44) is PARKED (`joined:<id>`), later operations go on, and what it is handed is observed when that recalculation's `done` is played",
     "harness: virtual clock and patched datetime.now (harness/vtime.py), gating of background refresh tasks, canonicalisation (harness/decor14.py)",
     "always explicit early_ttl / soft_ttl: the default ttl*0.33 is a float product outside the model",
     "the store step after a successful execution is scripted too: cfg mode=default uses the facade's default condition (store every "
@@ -253,6 +255,29 @@ def exhaustive_cases():
                         out.append({"cfg": cfg, "ops": ops})
     out += store_step_grid()
     out += duration_grid()
+    out += recalculation_grid()
+    return out
+
+
+def recalculation_grid():
+    """early, background on, every (ttl, early_ttl) x outcome of the recalculation: a recalculation that outlives its lock key
+    (a stale hit after it must start nothing) and the stored result (cold misses meanwhile execute nothing, are parked on it and
+    answered when it completes — two of them, one with a duration of its own that must be ignored), then the calls after it"""
+    out = []
+    for ttl in D.TTLS:
+        for inner in D.INNERS:
+            for store in ("plain", "purge"):
+                cfg = {"decor": "early", "ttl": ttl, "inner": inner, "hits": 0, "upd": 0, "bg": 1, "store": store}
+                for o in ("ok", "lis", "unl"):
+                    ops = ["call a ok", f"adv {inner + 1}", "call a ok", f"adv {inner}", "call a lis", f"adv {max(ttl - 2 * inner - 1, 0)}",
+                           "call a lis 2", "adv 1", "call a ok 3", "call b ok 1", "adv 1", f"done a 0 {o}", "call a lis", "call a ok 1",
+                           f"adv {inner + 1}", "call a lis", f"adv {ttl}", "call a lis 1", f"done a 0 {o}", "call a ok"]
+                    out.append({"cfg": cfg, "ops": ops})
+    for ttl in D.TTLS:
+        for f in D.SCRIPT_EXTRA["early"]:
+            cfg = {"decor": "early", "ttl": ttl, "inner": 4, "hits": 0, "upd": 0, "bg": 1, "store": "plain", "mode": "script"}
+            ops = ["call a ok", "adv 5", "call a ok", f"adv {ttl}", f"call a {f}", "call a lis", f"done a 0 {f}", "call a lis", "call a ok"]
+            out.append({"cfg": cfg, "ops": ops})
     return out
 
 
@@ -327,7 +352,7 @@ def store_step_grid():
 
 def run(chk: Check) -> int:
     proof = proof_stage(PROP, "driver_c14", chk.thorough) if not getattr(chk, "skip_proof", False) else None
-    n = chk.budget(12000, 300000)
+    n = chk.budget(10000, 300000)
     enum_len = chk.budget(4, 6)
     cases = [("corpus:" + name, c) for name, c in corpus_cases()]
     ncorpus = len(cases)
@@ -350,6 +375,11 @@ def run(chk: Check) -> int:
         enum_sizes[f"{cfg['decor']} bg={cfg['bg']} hits={cfg['hits']} upd={cfg['upd']} mode={cfg.get('mode', 'default')} executions "
                    f"with durations (1..{enum_len_d} ops): |alphabet|={len(alphabet)}"] = len(hs)
         cases += [(f"enum-dur:{cfg['decor']}:{i}", {"cfg": cfg, "ops": h}) for i, h in enumerate(hs)]
+    enum_len_j = chk.budget(6, 7)
+    for cfg, alphabet in D.ENUM_JOIN:
+        hs = D.enumerate_histories(alphabet, enum_len_j)
+        enum_sizes[f"{cfg['decor']} bg={cfg['bg']} one recalculation at a time (1..{enum_len_j} ops): |alphabet|={len(alphabet)}"] = len(hs)
+        cases += [(f"enum-join:{i}", {"cfg": cfg, "ops": h}) for i, h in enumerate(hs)]
     decors = ["early", "soft", "fail", "hit", "early", "hit"]
     for i in range(n):
         cfg = D.gen_cfg(chk.rng, decors[i % len(decors)])
@@ -434,7 +464,9 @@ def run(chk: Check) -> int:
                 "call exactly at an inner/hard TTL, an execution that took time / straddled the ttl of the stored result / outlasted the inner ttl or the "
                 "early lock, a listed failure after the result expired DURING the execution, a stale value served after a slow failure that ended "
                 "inside ttl, a result young only because its deadlines count from the completion of a slow execution, a foreground refresh that "
-                "straddles the ttl (fresh result served), refresh started / in flight during a call / finishing after a later call / outliving "
+                "straddles the ttl (fresh result served), a cold miss parked on the recalculation in flight and answered fresh / with its exception "
+                "at the `done`, several callers parked on one recalculation, a stale hit after the recalculation outlived its lock key (starts "
+                "nothing), refresh started / in flight during a call / finishing after a later call / outliving "
                 "its lock, failing foreground or background refresh, stale value served on a listed exception, listed failure after hard "
                 "expiry, last allowed hit, execution after cache_hits serves, refresh at update_after, a store step failing (by stage and by "
                 "exception class) with and without an older result stored, in a foreground / background refresh, a turned-down result and the "
